@@ -195,6 +195,10 @@ func genC11(r *Rng, tier string) []Case {
 			}
 		}
 	}
+	for _, cp := range []rune{0x7f, 0x80, 0x7ff, 0x800, 0xd7ff, 0xe000, 0xfffc, 0xfffd, 0xfffe, 0xffff, 0x10000, 0x10ffff} {
+		add([]byte(string(cp)))
+		add([]byte("x" + string(cp) + "y"))
+	}
 	nrand := 2000
 	if tier == "thorough" {
 		nrand = 50000
@@ -356,6 +360,12 @@ func genC12(r *Rng, tier string) []Case {
 			w = 1
 		}
 		dec([]string{"text", "uint"}, append(append(headBytes(0x60, w, uint64(len(s))), s...), 0x05))
+	}
+	// text items around every UTF-8 encoding boundary, incl. U+FFFD itself
+	for _, cp := range []rune{0x7f, 0x80, 0x7ff, 0x800, 0xd7ff, 0xe000, 0xfffc, 0xfffd, 0xfffe, 0xffff, 0x10000, 0x10ffff} {
+		for _, s := range []string{string(cp), "caf" + string(cp), string(cp) + string(cp) + "z"} {
+			dec([]string{"text", "uint"}, append(append(canonHead(0x60, uint64(len(s))), s...), 0x05))
+		}
 	}
 	// concatenated streams decoded with matching / mismatching kind sequences
 	n := 1500
